@@ -78,6 +78,17 @@ impl D {
             _ => panic!("kind {}", kind),
         })
     }
+    /// The object `Default::default()` gives for the kind.
+    pub fn default_of(kind: &str) -> Option<D> {
+        guard(|| match kind {
+            "Normal" => D::Normal(Normal::default()), "Gamma" => D::Gamma(Gamma::default()), "Beta" => D::Beta(Beta::default()),
+            "ChiSquared" => D::ChiSquared(ChiSquared::default()), "T" => D::T(T::default()), "Pareto" => D::Pareto(Pareto::default()),
+            "Gumbel" => D::Gumbel(Gumbel::default()), "Exponential" => D::Exponential(Exponential::default()), "Uniform" => D::Uniform(Uniform::default()),
+            "DiscreteUniform" => D::DiscreteUniform(DiscreteUniform::default()), "Poisson" => D::Poisson(Poisson::default()),
+            "Binomial" => D::Binomial(Binomial::default()), "Bernoulli" => D::Bernoulli(Bernoulli::default()),
+            _ => panic!("kind {}", kind),
+        })
+    }
     /// Field setter number i (0-based). Returns false if the call panicked.
     pub fn set(&mut self, i: usize, v: f64) -> bool {
         guard(|| match self {
